@@ -82,7 +82,7 @@ func genBenchLine(T *sim.Tape, opts genTextOpts, stressN *int) string {
 		if bad == 4 && i == n-1 {
 			b.WriteString(sim.Pick(T, gtBadNums, "badnum"))
 		} else {
-			b.WriteString(sim.Pick(T, gtNums, "num"))
+			b.WriteString(gtNumText(T))
 		}
 		if bad == 5 && i == n-1 {
 			if T.Bool("trail") {
@@ -100,6 +100,46 @@ func genBenchLine(T *sim.Tape, opts genTextOpts, stressN *int) string {
 	}
 	if T.Intn(6, "trailws") == 0 {
 		b.WriteString(gtWs(T))
+	}
+	return b.String()
+}
+
+// gtNumText: a number from the pool, or (one time in five) digits drawn one by one: a mantissa of up to 19 digits,
+// now and then a decimal point inside it, and an exponent of up to +-40 - the shapes that sit on the borders between
+// the reader's fast and exact conversion paths. The reference reading is strconv.ParseFloat in every case.
+func gtNumText(T *sim.Tape) string {
+	if T.Intn(5, "num-generated") != 0 {
+		return sim.Pick(T, gtNums, "num")
+	}
+	var b strings.Builder
+	if T.Intn(4, "num-neg") == 0 {
+		b.WriteByte('-')
+	}
+	nd := 1 + T.Intn(19, "num-ndigits")
+	point := -1
+	if T.Intn(3, "num-point") == 0 {
+		point = T.Intn(nd+1, "num-point-at")
+	}
+	for i := 0; i < nd; i++ {
+		if i == point {
+			b.WriteByte('.')
+		}
+		d := T.Intn(10, "num-digit")
+		if i == 0 && d == 0 && nd > 1 {
+			d = 1 + T.Intn(9, "num-digit1")
+		}
+		b.WriteByte(byte('0' + d))
+	}
+	if point == nd {
+		b.WriteByte('.')
+	}
+	if T.Intn(3, "num-exp") != 0 {
+		b.WriteByte("eE"[T.Intn(2, "num-e")])
+		e := T.Intn(81, "num-expv") - 40
+		if e >= 0 && T.Bool("num-exp-plus") {
+			b.WriteByte('+')
+		}
+		b.WriteString(strconv.Itoa(e))
 	}
 	return b.String()
 }
